@@ -218,6 +218,29 @@ func (o *Obligation) Query(withModel bool) string {
 			include[i] = true
 		}
 	}
+	defIdx := map[string]int{}
+	for i, it := range items {
+		if it.kind == itDef {
+			defIdx[it.name] = i
+		}
+	}
+	// derivable: a defined name all of whose ingredients are (derivable from) needed symbols
+	var derivable func(s string, depth int) bool
+	derivable = func(s string, depth int) bool {
+		if needed[s] || !vc.declared[s] {
+			return true
+		}
+		i, isDef := defIdx[s]
+		if !isDef || depth > 6 {
+			return false
+		}
+		for d := range items[i].syms {
+			if !derivable(d, depth+1) {
+				return false
+			}
+		}
+		return true
+	}
 	changed := true
 	for changed {
 		changed = false
@@ -232,6 +255,7 @@ func (o *Obligation) Query(withModel bool) string {
 				take = needed[it.name]
 			case itAssume:
 				any := false
+				all := true
 				for s := range it.syms {
 					if vc.declared[s] {
 						any = true
@@ -239,9 +263,12 @@ func (o *Obligation) Query(withModel bool) string {
 							take = true
 							break
 						}
+						if !derivable(s, 0) {
+							all = false
+						}
 					}
 				}
-				if !any {
+				if !any || all {
 					take = true
 				}
 			}
@@ -388,7 +415,7 @@ func (vc *VC) SliceSortOf(elem *Sort) *Sort {
 		return s
 	}
 	s := &Sort{Name: name, Kind: KData, Role: "slice", Elem: elem, Ctor: "mk_" + name}
-	s.Fields = []Field{{Name: name + "_arr", Sort: SArray(SInt, elem)}, {Name: name + "_off", Sort: SInt}, {Name: name + "_len", Sort: SInt}, {Name: name + "_nil", Sort: SBool}}
+	s.Fields = []Field{{Name: name + "_arr", Sort: SArray(SInt, elem)}, {Name: name + "_len", Sort: SInt}, {Name: name + "_nil", Sort: SBool}}
 	vc.declareData(s)
 	return s
 }
@@ -675,6 +702,29 @@ func ArraySet(a Term, idx Term, v Term) Term {
 		fs[i] = Ite(Eq(idx, IntLit64(int64(i), idx.Sort)), v, FieldOf(a, i))
 	}
 	return MkData(a.Sort, fs...)
+}
+
+// slices are (contents indexed from 0, length, nil flag): element i of s is (select (arr s) i); there is no
+// offset, so that quantified facts about elements have arithmetic-free patterns. Re-slicing from a non-zero
+// low bound introduces a fresh contents array with a shift axiom.
+func slArr(s Term) Term { return FieldOf(s, 0) }
+func slLen(s Term) Term { return FieldOf(s, 1) }
+func slNil(s Term) Term { return FieldOf(s, 2) }
+func mpDom(m Term) Term { return FieldOf(m, 0) }
+func mpVal(m Term) Term { return FieldOf(m, 1) }
+func mpCard(m Term) Term { return FieldOf(m, 2) }
+func mpNil(m Term) Term { return FieldOf(m, 3) }
+func lenOf(t Term) Term {
+	if t.Sort.Role == "slice" {
+		return slLen(t)
+	}
+	return mpCard(t)
+}
+func nilOf(t Term) Term {
+	if t.Sort.Role == "slice" {
+		return slNil(t)
+	}
+	return mpNil(t)
 }
 
 func Select(arr, k Term) Term { return App(arr.Sort.Elem, "select", arr, k) }
